@@ -39,9 +39,27 @@ def fresh_dir(ctx, name):
     return d
 
 
+def odd_index(df):
+    """give a table an index that is NOT 0..n-1 (what filtering, slicing, sorting or concatenating a table leaves behind): the rows
+    and their order stay as they are, only the labels change - positional readers must not notice.  Chosen from the table's size."""
+    n = len(df)
+    kind = n % 5
+    if kind == 0 or n == 0:
+        return df                                         # default RangeIndex
+    if kind == 1:
+        df.index = np.arange(n) * 3 + 7                    # the labels of a filtered table
+    elif kind == 2:
+        df.index = np.arange(n)[::-1].copy()               # the labels of a table sorted by another column
+    elif kind == 3:
+        df.index = np.arange(n) // 2                       # duplicated labels (concatenated tables)
+    else:
+        df.index = ["r%d" % ((7 * i) % n) for i in range(n)]   # string labels
+    return df
+
+
 def make_df(cols):
     import pandas as pd
-    return pd.DataFrame({k: np.asarray(v) for k, v in cols.items()})
+    return odd_index(pd.DataFrame({k: np.asarray(v) for k, v in cols.items()}))
 
 
 def patch_records(cat):
